@@ -535,6 +535,20 @@ LAMBDA_TEMPLATES = {
 }
 
 
+LISTS_TEMPLATES = {
+    # ListTransformer._replace_pop_call (only with Feature.LISTS): the root is the user's own list variable name / 'list_'
+    'lists_pop:list_variable': "def f(a, b, c):\n    {W} = [a, b, c]\n    x = {W}.pop()\n    return tr(1, x, {W})\n",
+    'lists_pop:other_variable_read': "def f(a, b, c):\n    {W} = 7\n    kq_l = [a, b, c]\n    x = kq_l.pop()\n    y = [a, b][0:2].pop()\n    return tr(1, x, y, kq_l, {W})\n",
+    'lists_pop:other_variable_assigned_only': "def f(a, b, c):\n    {W} = 7\n    kq_l = [a, b, c]\n    x = kq_l.pop()\n    y = [a, b][0:2].pop()\n    return tr(1, x, y, kq_l)\n",
+}
+
+
+def make_lists_case(prelude, kind, word):
+    return {'source': prelude + LISTS_TEMPLATES[kind].replace('{W}', word), 'fname': 'f', 'inputs': [[1, 2, 3], [0, -1, 5]],
+            'decisions': [[]], 'recursive': False, 'features': 'LISTS', 'late_globals': {}, 'gvar': 'G', 'role': kind, 'word': word,
+            'base': 'lists', 'probed': False}
+
+
 def make_lambda_case(prelude, kind, word):
     """The entity converted is a lambda (`get_transformed_name` = ag__lam, FunctionTransformer.visit_Lambda asks for `lscope`)."""
     tmpl, late = LAMBDA_TEMPLATES[kind]
@@ -608,7 +622,11 @@ def eval_case(ws, case, max_runs=12):
             return orig(self, name_root, reserved_locals)
         naming.Namer.new_symbol = spy
         try:
-            tr = passes.trace_conversion(fn, passes.make_options(recursive=bool(case.get('recursive', True))))
+            feats = None
+            if case.get('features'):
+                from malt.core import converter
+                feats = getattr(converter.Feature, case['features'])
+            tr = passes.trace_conversion(fn, passes.make_options(recursive=bool(case.get('recursive', True)), features=feats))
         finally:
             naming.Namer.new_symbol = orig
         res['namespace'] = list(tr.namespace)
